@@ -276,8 +276,11 @@ fn perturb(doc: &mut Doc, ch: &Choice, ctx: &RuleCtx) {
   match ch.perturb {
     0 => {}
     1 => {
-      // a variable used in fix is renamed to an undefined one
-      if doc.fix.contains(&v0) {
+      // a variable used in fix is renamed to an undefined one (single or ellipsis form)
+      if ch.cyc_op % 3 == 2 {
+        doc.fix.push_str(" $$$ZZ");
+        doc.violates = Some("fix uses the undefined variable $$$ZZ".into());
+      } else if doc.fix.contains(&v0) {
         doc.fix = doc.fix.replacen(&v0, "$ZZ", 1);
         doc.violates = Some("fix uses the undefined variable $ZZ".into());
       }
@@ -303,6 +306,14 @@ fn perturb(doc: &mut Doc, ch: &Choice, ctx: &RuleCtx) {
         rewriters.push("nope".into());
         doc.violates = Some("rewriter reference `nope` does not resolve".into());
       }
+    }
+    6 if ch.cyc_op % 3 == 2 && doc.transforms.iter().any(|(n, _)| n == "RW") => {
+      // a cycle of transformations that passes through a `rewrite`
+      doc.transforms[0].1.set_source("$RW");
+      if let Some((_, t)) = doc.transforms.iter_mut().find(|(n, _)| n == "RW") {
+        t.set_source("$T1");
+      }
+      doc.violates = Some("transformations T1 and RW depend on each other".into());
     }
     6 => {
       if ch.cyc_op % 2 == 0 || doc.transforms.len() < 2 || !matches!(doc.transforms[1].1, TK::Replace { .. }) {
